@@ -593,6 +593,8 @@ impl ComponentDb {
                 .hydrated_component(fallible_id, computation_db)
                 .computation();
             let error_type = get_err_variant(fallible_computation.output_type().unwrap());
+            // No need to upcast to `pavex::Error` if that's what the component returns already.
+            let is_pavex_error = error_type == &self.pavex_error;
 
             if let Some(error_handler) =
                 error_handlers_db.get_or_try_bind(scope_id, error_type, self)
@@ -672,9 +674,12 @@ impl ComponentDb {
             // We default to Pavex's one.
             let error_matcher_id = self.fallible_id2match_ids.get(&fallible_id).unwrap().1;
             // Upcast the concrete error type into a `pavex::Error`
-            let pavex_error_transformer_id =
+            let pavex_error_transformer_id = if is_pavex_error {
+                error_matcher_id
+            } else {
                 register_error_new_transformer(error_matcher_id, self, computation_db, scope_id)
-                    .unwrap();
+                    .unwrap()
+            };
             self.get_or_intern(
                 UnregisteredComponent::ErrorHandler {
                     source_id: SourceId::ComputationId(
